@@ -68,7 +68,7 @@ def cases() -> Any:
 
 def parts(tier: str) -> List[Part]:
     if tier == "thorough":
-        return [Part("programs", "given", shards=16, examples=4000, strategy=cases, soft_deadline_s=1500)]
+        return [Part("programs", "given", shards=16, examples=10000, strategy=cases, soft_deadline_s=3000)]
     return [Part("programs", "given", shards=8, examples=400, strategy=cases, soft_deadline_s=120)]
 
 
